@@ -54,10 +54,10 @@ type closeEvent struct {
 	Via    string `json:"via"`
 	Stamp  int64  `json:"stamp"`
 	Gid    int64  `json:"gid,omitempty"`
-	First  bool   `json:"first"`          // first successful close of this conn
-	Echoed bool   `json:"echoed"`         // Disconnected delivered synchronously from inside the close
-	Failed bool   `json:"failed"`         // close returned an error
-	ClockM int64  `json:"clock_ms"`       // mock clock read after the close was observed (upper bound of the trim's "now")
+	First  bool   `json:"first"`            // first successful close of this conn
+	Echoed bool   `json:"echoed"`           // Disconnected delivered synchronously from inside the close
+	Failed bool   `json:"failed"`           // close returned an error
+	ClockM int64  `json:"clock_ms"`         // mock clock read after the close was observed (upper bound of the trim's "now")
 	EchoC  int64  `json:"echo_c,omitempty"` // stamps around the echoed Disconnected (concurrent histories)
 	EchoR  int64  `json:"echo_r,omitempty"`
 }
@@ -71,6 +71,8 @@ type recorder struct {
 	notifee network.Notifiee
 	nowMs   func() int64
 	wantGid bool
+
+	statYield atomic.Int32
 }
 
 func (r *recorder) tick() int64 { return r.stamp.Add(1) }
@@ -110,11 +112,14 @@ func newFakeConn(rec *recorder, id, p, slot int, inbound bool, streams, mode int
 	return c
 }
 
-func (c *fakeConn) RemotePeer() peer.ID            { return c.pid }
+func (c *fakeConn) RemotePeer() peer.ID           { return c.pid }
 func (c *fakeConn) RemoteMultiaddr() ma.Multiaddr { return c.addr }
-func (c *fakeConn) ID() string                     { return "c14-" + strconv.Itoa(c.id) }
-func (c *fakeConn) IsClosed() bool                 { return c.closed.Load() }
+func (c *fakeConn) ID() string                    { return "c14-" + strconv.Itoa(c.id) }
+func (c *fakeConn) IsClosed() bool                { return c.closed.Load() }
 func (c *fakeConn) Stat() network.ConnStats {
+	for i := int32(0); i < c.rec.statYield.Load(); i++ {
+		runtime.Gosched() // concurrent histories: the manager calls Stat while sorting; yielding here widens the window between a trim's candidate scan and its selection
+	}
 	if h := c.statHook.Swap(nil); h != nil {
 		(*h)() // one-shot: lets a scenario deliver a notification while the manager is sorting candidates
 	}
@@ -124,8 +129,10 @@ func (c *fakeConn) Stat() network.ConnStats {
 	}
 	return network.ConnStats{Stats: network.Stats{Direction: d}, NumStreams: int(c.streams.Load())}
 }
-func (c *fakeConn) Close() error                                  { return c.managerClose("Close") }
-func (c *fakeConn) CloseWithError(_ network.ConnErrorCode) error { return c.managerClose("CloseWithError") }
+func (c *fakeConn) Close() error { return c.managerClose("Close") }
+func (c *fakeConn) CloseWithError(_ network.ConnErrorCode) error {
+	return c.managerClose("CloseWithError")
+}
 
 var errCloseFails = errors.New("c14: close fails on this connection")
 
